@@ -122,10 +122,24 @@ impl ParserState {
             }
             if let Some(arr) = self.context.pop() {
                 if let Some(val_list) = self.context.last_mut() {
+                    // a member is a memberAttrName followed by one or more values
                     let mut map: BTreeMap<String, IppValue> = BTreeMap::new();
-                    for idx in (0..arr.len()).step_by(2) {
-                        if let (Some(IppValue::MemberAttrName(k)), Some(v)) = (arr.get(idx), arr.get(idx + 1)) {
-                            map.insert(k.to_string(), v.clone());
+                    let mut member: Option<(String, Vec<IppValue>)> = None;
+                    for item in arr.iter() {
+                        if let IppValue::MemberAttrName(k) = item {
+                            if let Some((name, values)) = member.take() {
+                                if !values.is_empty() {
+                                    map.insert(name, list_or_value(values));
+                                }
+                            }
+                            member = Some((k.to_string(), Vec::new()));
+                        } else if let Some((_, ref mut values)) = member {
+                            values.push(item.clone());
+                        }
+                    }
+                    if let Some((name, values)) = member.take() {
+                        if !values.is_empty() {
+                            map.insert(name, list_or_value(values));
                         }
                     }
                     val_list.push(IppValue::Collection(map));
